@@ -1,10 +1,54 @@
-(* Properties_C09.v — statements are added as the proofs land (see DESIGN.md). *)
-From Coq Require Import List ZArith.
-Require Import Tok GoVal Marshal Unmarshal.
+(* Properties_C09.v — C09: unmarshalling never silently changes a number.
+   The statements are about [uprim] / [uany_scalar] (Unmarshal.v), the model
+   of the primitive unmarshal machine, for every integer kind. *)
+From Coq Require Import List ZArith Bool Lia.
+Require Import Tok GoVal FloatConv Unmarshal.
 Import ListNotations.
 Open Scope Z_scope.
 
-Example C09_model_runs :
-  marshal_top [] (Atlas [] 0) (GSlice (GNum I8)) (VSlice (Some [VNum 1; VNum (-2)])) =
-  MOk [Tok (ArrOpen 2) None; Tok (Int 1) None; Tok (Int (-2)) None; Tok ArrClose None].
-Proof. vm_compute. reflexivity. Qed.
+(* an integer token into an integer kind: stored exactly iff it is in range ... *)
+Theorem C09_int_store_exact : forall k cur z tg r,
+  in_kind k z = true ->
+  uprim (GNum k) cur (Tok (Int z) tg :: r) = UOk (VNum z) r /\
+  uprim (GNum k) cur (Tok (Uint z) tg :: r) = UOk (VNum z) r.
+Proof. intros k cur z tg r H. cbn [uprim]. rewrite H. split; reflexivity. Qed.
+
+(* ... and an error otherwise (too wide, negative into unsigned, beyond 64 bits) *)
+Theorem C09_int_out_of_range_rejected : forall k cur z tg r,
+  in_kind k z = false ->
+  uprim (GNum k) cur (Tok (Int z) tg :: r) = UErr (S (length r)) /\
+  uprim (GNum k) cur (Tok (Uint z) tg :: r) = UErr (S (length r)).
+Proof. intros k cur z tg r H. cbn [uprim length]. rewrite H. split; reflexivity. Qed.
+
+(* in_kind is exactly the mathematical range of the Go kind *)
+Theorem C09_in_kind_is_range : forall k z, in_kind k z = true <-> ik_min k <= z <= ik_max k.
+Proof. intros k z. unfold in_kind. rewrite andb_true_iff, !Z.leb_le. tauto. Qed.
+
+(* floats never go into integer kinds *)
+Theorem C09_float_into_int_rejected : forall k cur b tg r,
+  uprim (GNum k) cur (Tok (Flt b) tg :: r) = UErr (S (length r)).
+Proof. intros. reflexivity. Qed.
+
+(* floats into float targets: float64 exactly, float32 by rounding *)
+Theorem C09_float_store : forall cur b tg r,
+  uprim GF64 cur (Tok (Flt b) tg :: r) = UOk (GVFlt b) r /\
+  uprim GF32 cur (Tok (Flt b) tg :: r) = UOk (GVFlt (round32 b)) r.
+Proof. intros. split; reflexivity. Qed.
+
+(* an untyped slot holds exactly the integer that was serialized: as int when it fits, else as uint64 *)
+Theorem C09_untyped_store_exact : forall z,
+  uany_scalar (Int z) = Some (VAny (Some (GNum IInt, VNum z))) /\
+  (uany_scalar (Uint z) = Some (VAny (Some (GNum IInt, VNum z))) \/
+   (max_i64 < z /\ uany_scalar (Uint z) = Some (VAny (Some (GNum U64, VNum z))))).
+Proof.
+  intros z. split; [reflexivity|]. unfold uany_scalar.
+  destruct (Z.leb_spec z max_i64); [left; reflexivity|right; split; [assumption|reflexivity]].
+Qed.
+Print Assumptions C09_untyped_store_exact.
+
+Example C09_300_into_int8_rejected :
+  uprim (GNum I8) (VNum 0) [Tok (Int 300) None] = UErr 1.
+Proof. reflexivity. Qed.
+Example C09_max_uint64_untyped :
+  uany_scalar (Uint 18446744073709551615) = Some (VAny (Some (GNum U64, VNum 18446744073709551615))).
+Proof. reflexivity. Qed.
